@@ -272,6 +272,21 @@ def run(ctx):
         else:
             # the defect is gone but the theorem about the regenerated row still says it is there: inconsistent
             ctx.notes.append("probe %s now agrees with Go" % key)
+    # 4b. hand-written feature programs (corpus/C01/*.go): single source, valid Go and WaGo, every run, both tiers
+    import glob as _glob
+    feats = sorted(_glob.glob(os.path.join(vlib.VERIF, "corpus", "C01", "*.go")))
+    with cf.ThreadPoolExecutor(16) as ex:
+        fres = list(ex.map(lambda f: run_both(ctx, warun, open(f).read(), "feat_" + re.sub(r"\W+", "_", os.path.basename(f))), feats))
+    dist["feature_programs"] = len(feats)
+    for f, (wst, wl, gst, gl) in zip(feats, fres):
+        nm = os.path.basename(f)[:-3]
+        if gst != "ok":
+            raise vlib.InfraError("go run of corpus/C01/%s.go failed: %s" % (nm, gl[:3]))
+        if wst != "ok" or [l.rstrip() for l in wl] != [l.rstrip() for l in gl]:
+            first = next((i for i, (u, v) in enumerate(zip(wl, gl)) if u.rstrip() != v.rstrip()), min(len(wl), len(gl)))
+            ctx.violation("feature:" + nm, "feature program corpus/C01/%s.go: Wa (%s) differs from Go at output line %d: %s vs %s" % (
+                nm, wst, first, " | ".join(l.strip() for l in wl[first:first + 3])[:160], " | ".join(l.strip() for l in gl[first:first + 3])[:160]),
+                {"program": open(f).read(), "wa_status": wst, "wa": wl[:first + 4], "go": gl[:first + 4]})
     ctx.phase('probes-done')
     # 5. whole programs from the shared generator (single source, both ways)
     try:
